@@ -368,9 +368,12 @@ outer:
 		}
 
 		utfb := make([]byte, len(b)*4) // worst case
-		for l := 1; l < len(b); l++ {
+		for l := 1; l <= len(b); l++ {
 			s.decoder.Reset()
-			nout, nin, _ := s.decoder.Transform(utfb, b[:l], true)
+			// not at EOF: a prefix that ends inside a multi-byte
+			// character must be reported as short, not decoded
+			// to the replacement character
+			nout, nin, _ := s.decoder.Transform(utfb, b[:l], false)
 
 			if nout != 0 {
 				r, _ := utf8.DecodeRune(utfb[:nout])
